@@ -538,13 +538,14 @@ package keyvalue
 //@            hData(f).(*blob.Bytes).bytes, hData(f).(*blob.Bytes).length, elems(hData(f).(*blob.Bytes).bytes), gint("blobLen", payload(hData(f))), garr("blobAt", payload(hData(f)))
 //@   ensures "dir" implies(old(fIsDir(f)), n == 0 && isPathError(err) && errIs(err, hackpadfs.ErrIsDir) && pathOf(err) == f.path)
 //@   ensures "neg" implies(!old(fIsDir(f)) && off < 0, n == 0 && isPathError(err) && pathOf(err) == f.path)
-//@   ensures "data-error" implies(!old(fIsDir(f)) && off >= 0 && old(hDataErr(f)) != nil, n == 0 && isPathError(err) && innerErr(err) == old(hDataErr(f)))
+//@   ensures "data-error" implies(!old(fIsDir(f)) && off >= 0 && old(blob.blobLen(p)) > 0 && old(hDataErr(f)) != nil, n == 0 && isPathError(err) && innerErr(err) == old(hDataErr(f)))
+//@   ensures "empty-write" [C02] implies(!old(fIsDir(f)) && off >= 0 && old(blob.blobLen(p)) == 0, n == 0 && err == nil && implies(old(hDataErr(f)) == nil, sameContent(old(hData(f)))) && world() == old(world()))
 //@   ensures "count" implies(err == nil && old(canGrowSet(hData(f))), n == old(blob.blobLen(p)))
-//@   ensures "size" implies(err == nil && old(canGrowSet(hData(f))), blob.blobLen(old(hData(f))) == max(old(blob.blobLen(hData(f))), off + n))
+//@   ensures "size" implies(err == nil && old(canGrowSet(hData(f))), blob.blobLen(old(hData(f))) == ite(n == 0, old(blob.blobLen(hData(f))), max(old(blob.blobLen(hData(f))), off + n)))
 //@   ensures "written" implies(err == nil && old(canGrowSet(hData(f))), forall(i, 0, n, blob.blobAt(old(hData(f)), off + i) == old(blob.blobAt(p, i))))
 //@   ensures "others-kept" implies(err == nil && old(canGrowSet(hData(f))),
 //@                     forall(j, 0, old(blob.blobLen(hData(f))), implies(j < off || j >= off + n, blob.blobAt(old(hData(f)), j) == old(blob.blobAt(hData(f), j)))))
-//@   ensures "gap-zero" implies(err == nil && old(canGrowSet(hData(f))), forall(j, old(blob.blobLen(hData(f))), off, blob.blobAt(old(hData(f)), j) == 0))
+//@   ensures "gap-zero" implies(err == nil && n > 0 && old(canGrowSet(hData(f))), forall(j, old(blob.blobLen(hData(f))), off, blob.blobAt(old(hData(f)), j) == 0))
 //@   ensures "same-blob" implies(old(hDataErr(f)) == nil && !old(fIsDir(f)) && off >= 0, hData(f) == old(hData(f)) && hDataErr(f) == nil)
 //@   ensures "n-range" 0 <= n && n <= old(blob.blobLen(p))
 //@   ensures "fail-unchanged" implies(err != nil && n == 0 && (old(fIsDir(f)) || off < 0 || old(hDataErr(f)) != nil), implies(old(hDataErr(f)) == nil, sameContent(old(hData(f)))))
@@ -583,12 +584,12 @@ package keyvalue
 //@   ensures "closed" implies(f.closed, n == 0 && closedError(err, f) && f.offset == old(f.offset) && implies(old(hDataErr(f)) == nil, sameContent(old(hData(f)))))
 //@   ensures "dir" implies(!f.closed && old(fIsDir(f)), n == 0 && isPathError(err) && errIs(err, hackpadfs.ErrIsDir))
 //@   ensures "count" implies(err == nil, n == old(blob.blobLen(p)))
-//@   ensures "size" implies(err == nil, blob.blobLen(old(hData(f))) == max(old(blob.blobLen(hData(f))), old(writeAtPos(f)) + n))
+//@   ensures "size" implies(err == nil, blob.blobLen(old(hData(f))) == ite(n == 0, old(blob.blobLen(hData(f))), max(old(blob.blobLen(hData(f))), old(writeAtPos(f)) + n)))
 //@   ensures "written" implies(err == nil, forall(i, 0, n, blob.blobAt(old(hData(f)), old(writeAtPos(f)) + i) == old(blob.blobAt(p, i))))
 //@   ensures "others-kept" implies(err == nil, forall(j, 0, old(blob.blobLen(hData(f))), implies(j < old(writeAtPos(f)) || j >= old(writeAtPos(f)) + n, blob.blobAt(old(hData(f)), j) == old(blob.blobAt(hData(f), j)))))
-//@   ensures "gap-zero" implies(err == nil, forall(j, old(blob.blobLen(hData(f))), old(writeAtPos(f)), blob.blobAt(old(hData(f)), j) == 0))
-//@   ensures "offset" implies(!f.closed, f.offset == old(writeAtPos(f)) + n)
-//@   ensures "append-lands-at-end" implies(err == nil && old(isAppend(f)) && old(hDataErr(f)) == nil && old(liveSize(fRec(f))) == old(blob.blobLen(hData(f))), old(writeAtPos(f)) == old(blob.blobLen(hData(f))) && f.offset == blob.blobLen(old(hData(f))))
+//@   ensures "gap-zero" implies(err == nil && n > 0, forall(j, old(blob.blobLen(hData(f))), old(writeAtPos(f)), blob.blobAt(old(hData(f)), j) == 0))
+//@   ensures "offset" implies(!f.closed, f.offset == ite(n > 0, old(writeAtPos(f)) + n, old(f.offset)))   // a zero-length write moves nothing, O_APPEND included
+//@   ensures "append-lands-at-end" implies(err == nil && n > 0 && old(isAppend(f)) && old(hDataErr(f)) == nil && old(liveSize(fRec(f))) == old(blob.blobLen(hData(f))), old(writeAtPos(f)) == old(blob.blobLen(hData(f))) && f.offset == blob.blobLen(old(hData(f))))
 //@   ensures "inv" fileInv(f) && f.closed == old(f.closed)
 //@   ensures "namespace" [C17 C03] implies(isMem(f.fileData.fs), memSameExcept(f.fileData.fs, f.fileData.path))
 //@   ensures "no-resurrect" [C17] implies(isMem(f.fileData.fs) && !old(kvHas(f.fileData.fs, f.fileData.path)), !kvHas(f.fileData.fs, f.fileData.path))
@@ -610,10 +611,10 @@ package keyvalue
 //@   ensures "append-refused" implies(!f.closed && isAppend(f), n == 0 && isPathError(err) && pathOf(err) == f.path && implies(old(hDataErr(f)) == nil, sameContent(old(hData(f)))))
 //@   ensures "neg" implies(!f.closed && !isAppend(f) && off < 0, n == 0 && err != nil && implies(old(hDataErr(f)) == nil, sameContent(old(hData(f)))))
 //@   ensures "count" implies(err == nil, n == old(blob.blobLen(p)))
-//@   ensures "size" implies(err == nil, blob.blobLen(old(hData(f))) == max(old(blob.blobLen(hData(f))), off + n))
+//@   ensures "size" implies(err == nil, blob.blobLen(old(hData(f))) == ite(n == 0, old(blob.blobLen(hData(f))), max(old(blob.blobLen(hData(f))), off + n)))
 //@   ensures "written" implies(err == nil, forall(i, 0, n, blob.blobAt(old(hData(f)), off + i) == old(blob.blobAt(p, i))))
 //@   ensures "others-kept" implies(err == nil, forall(j, 0, old(blob.blobLen(hData(f))), implies(j < off || j >= off + n, blob.blobAt(old(hData(f)), j) == old(blob.blobAt(hData(f), j)))))
-//@   ensures "gap-zero" implies(err == nil, forall(j, old(blob.blobLen(hData(f))), off, blob.blobAt(old(hData(f)), j) == 0))
+//@   ensures "gap-zero" implies(err == nil && n > 0, forall(j, old(blob.blobLen(hData(f))), off, blob.blobAt(old(hData(f)), j) == 0))
 //@   ensures "inv" fileInv(f) && f.offset == old(f.offset) && f.closed == old(f.closed)
 //@   ensures "namespace" [C17 C03] implies(isMem(f.fileData.fs), memSameExcept(f.fileData.fs, f.fileData.path))
 //@   ensures "no-resurrect" [C17] implies(isMem(f.fileData.fs) && !old(kvHas(f.fileData.fs, f.fileData.path)), !kvHas(f.fileData.fs, f.fileData.path))
@@ -726,11 +727,11 @@ package keyvalue
 //@   ensures "closed" implies(f.closed, n == 0 && closedError(err, f) && f.offset == old(f.offset) && implies(old(hDataErr(f)) == nil, sameContent(old(hData(f)))))
 //@   ensures "dir" implies(!f.closed && old(fIsDir(f)), n == 0 && isPathError(err) && errIs(err, hackpadfs.ErrIsDir))
 //@   ensures "count" implies(err == nil, n == len(p))
-//@   ensures "size" implies(err == nil, blob.blobLen(old(hData(f))) == max(old(blob.blobLen(hData(f))), old(writeAtPos(f)) + n))
+//@   ensures "size" implies(err == nil, blob.blobLen(old(hData(f))) == ite(n == 0, old(blob.blobLen(hData(f))), max(old(blob.blobLen(hData(f))), old(writeAtPos(f)) + n)))
 //@   ensures "written" implies(err == nil, forall(i, 0, n, blob.blobAt(old(hData(f)), old(writeAtPos(f)) + i) == old(p[i])))
 //@   ensures "others-kept" implies(err == nil, forall(j, 0, old(blob.blobLen(hData(f))), implies(j < old(writeAtPos(f)) || j >= old(writeAtPos(f)) + n, blob.blobAt(old(hData(f)), j) == old(blob.blobAt(hData(f), j)))))
-//@   ensures "gap-zero" implies(err == nil, forall(j, old(blob.blobLen(hData(f))), old(writeAtPos(f)), blob.blobAt(old(hData(f)), j) == 0))
-//@   ensures "offset" implies(!f.closed, f.offset == old(writeAtPos(f)) + n)
+//@   ensures "gap-zero" implies(err == nil && n > 0, forall(j, old(blob.blobLen(hData(f))), old(writeAtPos(f)), blob.blobAt(old(hData(f)), j) == 0))
+//@   ensures "offset" implies(!f.closed, f.offset == ite(n > 0, old(writeAtPos(f)) + n, old(f.offset)))   // a zero-length write moves nothing, O_APPEND included
 //@   ensures "inv" fileInv(f) && f.closed == old(f.closed)
 //@   ensures "namespace" [C17 C03] implies(isMem(f.fileData.fs), memSameExcept(f.fileData.fs, f.fileData.path))
 //@   ensures "no-resurrect" [C17] implies(isMem(f.fileData.fs) && !old(kvHas(f.fileData.fs, f.fileData.path)), !kvHas(f.fileData.fs, f.fileData.path))
@@ -750,10 +751,10 @@ package keyvalue
 //@   ensures "append-refused" implies(!f.closed && isAppend(f), n == 0 && err != nil && implies(old(hDataErr(f)) == nil, sameContent(old(hData(f)))))
 //@   ensures "neg" implies(!f.closed && !isAppend(f) && off < 0, n == 0 && err != nil && implies(old(hDataErr(f)) == nil, sameContent(old(hData(f)))))
 //@   ensures "count" implies(err == nil, n == len(p))
-//@   ensures "size" implies(err == nil, blob.blobLen(old(hData(f))) == max(old(blob.blobLen(hData(f))), off + n))
+//@   ensures "size" implies(err == nil, blob.blobLen(old(hData(f))) == ite(n == 0, old(blob.blobLen(hData(f))), max(old(blob.blobLen(hData(f))), off + n)))
 //@   ensures "written" implies(err == nil, forall(i, 0, n, blob.blobAt(old(hData(f)), off + i) == old(p[i])))
 //@   ensures "others-kept" implies(err == nil, forall(j, 0, old(blob.blobLen(hData(f))), implies(j < off || j >= off + n, blob.blobAt(old(hData(f)), j) == old(blob.blobAt(hData(f), j)))))
-//@   ensures "gap-zero" implies(err == nil, forall(j, old(blob.blobLen(hData(f))), off, blob.blobAt(old(hData(f)), j) == 0))
+//@   ensures "gap-zero" implies(err == nil && n > 0, forall(j, old(blob.blobLen(hData(f))), off, blob.blobAt(old(hData(f)), j) == 0))
 //@   ensures "inv" fileInv(f) && f.offset == old(f.offset) && f.closed == old(f.closed)
 //@   ensures "namespace" [C17 C03] implies(isMem(f.fileData.fs), memSameExcept(f.fileData.fs, f.fileData.path))
 //@   ensures "no-resurrect" [C17] implies(isMem(f.fileData.fs) && !old(kvHas(f.fileData.fs, f.fileData.path)), !kvHas(f.fileData.fs, f.fileData.path))
